@@ -478,3 +478,79 @@ Definition check_c09 (c : c09case) : N :=
   | C09B fc => check_c09b fc
   | C09F f => code (corr_ok f) (C09F_obs f)
   end.
+
+(* ---------- C15 ---------- *)
+From Cache Require Import Index.
+
+Inductive ires15 := IOk | IErr | IPanic | IOther.
+#[global] Instance ires15_eq_dec : EqDecision ires15.
+Proof. solve_decision. Defined.
+Record c15act := mkAct {
+  a_labels : list label; a_broken : list (cid * key); a_order : list cname; a_res : ires15; a_cnt : Z;
+  a_caches : list (cid * list key);                       (* contents after the call, sorted *)
+  a_index : list (cname * list (label * list key));       (* index after the call (VerifIndexSize), empty lists dropped *)
+}.
+Record c15case := C15Case {
+  c15_caches : list (cid * list key);
+  c15_dels : list (cname * list cid);
+  c15_adds : list (cname * key * list label);
+  c15_acts : list c15act;
+}.
+
+Definition idx_of (dels : list (cname * list cid)) (adds : list (cname * key * list label)) : idx :=
+  mkIdx (foldl (fun m a => let '(n, k, ls) := a in <[n := add_labels (default ∅ (m !! n)) k ls]> m) ∅ adds)
+        (list_to_map dels).
+
+Definition cache_keys (l : list (cid * list key)) (c : cid) : list key :=
+  match list_find (fun p => bool_decide (p.1 = c)) l with Some (_, p) => p.2 | None => [] end.
+
+Definition index_keys (l : list (cname * list (label * list key))) (n : cname) (lb : label) : list key :=
+  match list_find (fun p => bool_decide (p.1 = n)) l with
+  | Some (_, p) => match list_find (fun q => bool_decide (q.1 = lb)) p.2 with Some (_, q) => q.2 | None => [] end
+  | None => []
+  end.
+
+Definition all_names : list cname := [1; 2]%N.
+Definition all_labels : list label := [1; 2; 3; 4]%N.
+
+Definition should_go (ix : idx) (ls : list label) (n : cname) : list key :=
+  concat (map (fun l => default [] (default ∅ (i_labeled ix !! n) !! l)) ls).
+
+Definition name_of_cache (dels : list (cname * list cid)) (c : cid) : cname :=
+  match list_find (fun p => bool_decide (c ∈ p.2)) dels with Some (_, p) => p.1 | None => 0%N end.
+
+(* the property on what the implementation did, given the index the history of calls implies *)
+Definition c15_act_ok (dels : list (cname * list cid)) (ix : idx) (before : list (cid * list key)) (a : c15act) : bool :=
+  let cids := map fst before in
+  let removed := fold_right Z.add 0 (map (fun c => Z.of_nat (length (cache_keys before c)) - Z.of_nat (length (cache_keys (a_caches a) c))) cids) in
+  let subset := forallb (fun c => forallb (fun k => bool_decide (k ∈ cache_keys before c)) (cache_keys (a_caches a) c)) cids in
+  let untouched := forallb (fun c => forallb (fun k =>
+        bool_decide (k ∈ should_go ix (a_labels a) (name_of_cache dels c)) || bool_decide (k ∈ cache_keys (a_caches a) c))
+        (cache_keys before c)) cids in
+  match a_res a with
+  | IOk =>
+      subset && untouched && (a_cnt a =? removed) &&
+      forallb (fun c => forallb (fun k => negb (bool_decide (k ∈ cache_keys (a_caches a) c)))
+                                (should_go ix (a_labels a) (name_of_cache dels c))) cids
+  | IErr => subset && untouched && (a_cnt a =? removed) && negb (bool_decide (a_broken a = []))
+  | _ => false
+  end.
+
+Fixpoint c15_run (dels : list (cname * list cid)) (ix : idx) (cs : caches) (before : list (cid * list key))
+         (acts : list c15act) : bool * bool :=
+  match acts with
+  | [] => (true, true)
+  | a :: r =>
+    let '(ok, cnt, ix', cs') := invalidate (a_broken a) (a_order a) ix cs (a_labels a) 0 in
+    let m := eqb (bool_decide (a_res a = IOk)) ok && (a_cnt a =? cnt) &&
+             forallb (fun c => bool_decide (cache_keys (a_caches a) c = default [] (cs' !! c))) (map fst before) &&
+             forallb (fun n => forallb (fun l =>
+                bool_decide (index_keys (a_index a) n l = default [] (default ∅ (i_labeled ix' !! n) !! l))) all_labels) all_names in
+    let p := c15_act_ok dels ix before a in
+    let '(m', p') := c15_run dels ix' cs' (a_caches a) r in
+    (m && m', p && p')
+  end.
+
+Definition check_c15 (c : c15case) : N :=
+  let '(m, p) := c15_run (c15_dels c) (idx_of (c15_dels c) (c15_adds c)) (list_to_map (c15_caches c)) (c15_caches c) (c15_acts c) in
+  code m p.
